@@ -25,6 +25,12 @@ var plans = map[string]PropPlan{
 		Quick: []Plan{{Scenario: "lb", Kind: "seq"}}, Thorough: []Plan{{Scenario: "lb", Kind: "seq"}},
 		QuickSecs: 90, ThoroughSecs: 1500, Assumptions: seqAssume,
 	},
+	"C05": {
+		Quick:     []Plan{{Scenario: "conn.teardown", PB: 2, DB: 0}},
+		Thorough:  []Plan{{Scenario: "conn.teardown", PB: 3, DB: 0}},
+		QuickSecs: 100, ThoroughSecs: 1500,
+		Assumptions: schedAssume,
+	},
 	"C09": {
 		Quick:     []Plan{{Scenario: "conn.lifecycle", PB: 2, DB: 0}},
 		Thorough:  []Plan{{Scenario: "conn.lifecycle", PB: 3, DB: 0}},
